@@ -74,10 +74,10 @@ class ExprMixin:
         tgt = self.repo.resolve_name(mod, name)
         if tgt is not None:
             return self.target_value(tgt, name)
-        if name in HANDLERS or name in BUILTIN_EXC:
-            return Const(('builtin', name))
         if name == 'Ellipsis':
             return nf.ELLIPSIS
+        if name in HANDLERS or name in BUILTIN_EXC:
+            return Const(('builtin', name))
         return nf.sym(name)
 
     def target_value(self, tgt, name):
